@@ -188,7 +188,7 @@ func runPace(k paceCase) paceOutcome {
 		}
 	}
 	ga := 0
-	var termKey []byte
+	var termKey, termToken []byte
 	s.Link.Script = func(idx int, cmd []byte, l *link.Link) link.Action {
 		if len(cmd) < 5 {
 			return link.Pass
@@ -208,11 +208,15 @@ func runPace(k paceCase) paceOutcome {
 				if v := get7C(pc.Data, 0x83); v != nil {
 					termKey = v
 				}
+				if v := get7C(pc.Data, 0x85); v != nil {
+					termToken = v
+				}
 			}
 		default:
 			return link.Pass
 		}
 		tk := append([]byte{}, termKey...)
+		tt := append([]byte{}, termToken...)
 		return link.Action{Name: k.Dev + "@" + step, Respond: func(g []byte, l *link.Link) []byte {
 			switch {
 			case k.Dev == "sw-"+step:
@@ -227,6 +231,11 @@ func runPace(k paceCase) paceOutcome {
 				return patch7C(g, 0x84, func(v []byte) []byte { return alterPoint(v, k.DevForm, k.ParamID, rnd) })
 			case k.Dev == "kakey-echo" && step == "ka":
 				return patch7C(g, 0x84, func(v []byte) []byte { return tk })
+			case k.Dev == "reflect" && step == "ka":
+				return patch7C(g, 0x84, func(v []byte) []byte { return tk })
+			case k.Dev == "reflect" && step == "token":
+				// whatever the chip said (6300): the terminal's own token comes back as T_IC with 9000
+				return append(chipsim.EncodeTLV(0x7C, chipsim.EncodeTLV(0x86, tt)), 0x90, 0x00)
 			case k.Dev == "token" && step == "token":
 				return patch7C(g, 0x86, func(v []byte) []byte { v[rnd.Intn(len(v))] ^= 1 << uint(rnd.Intn(8)); return v })
 			case k.Dev == "ecad" && step == "token":
@@ -291,8 +300,14 @@ func C04(c *core.Ctx) {
 		t := v.([]any)
 		rows = append(rows, row{core.Str(t[1]), core.Str(t[2]), core.Str(t[3]), core.Str(t[4]), t[5].(bool), t[6].(bool)})
 	}
-	if len(rows) != 28 {
-		core.Infra("C04: expected 28 scenarios, got %d", len(rows))
+	if len(rows) != 30 {
+		core.Infra("C04: expected 30 scenarios, got %d", len(rows))
+	}
+	// the design without the comparison of the two key agreement keys must show the reflection counterexample
+	if r2, err := c.TLC(core.TLCOpts{Module: "MC_Pace", Cfg: "MC_Pace_noecho.cfg", Workers: 2}); err != nil {
+		core.Infra("%v", err)
+	} else if r2.OK {
+		core.Infra("MC_Pace_noecho: expected the reflection counterexample to FailClosed, found none")
 	}
 	spec := map[string]row{}
 	for _, rw := range rows {
@@ -401,6 +416,7 @@ func c04Selection(c *core.Ctx) {
 		{"dh-im-aes128", chipsim.PaceInfoSpec{OID: "0.4.0.127.0.7.2.2.4.3.2", ParamID: 1}, false},
 		{"ecdh-im-aes256", chipsim.PaceInfoSpec{OID: "0.4.0.127.0.7.2.2.4.4.4", ParamID: 13}, false},
 		{"unknown-oid", chipsim.PaceInfoSpec{OID: "0.4.0.127.0.7.2.2.4.9.9", ParamID: 13}, false},
+		{"dh-gm-aes128-modp", chipsim.PaceInfoSpec{OID: "0.4.0.127.0.7.2.2.4.1.2", ParamID: 1}, false},
 	}
 	for mask := 1; mask < 1<<len(universe); mask++ {
 		var sup []chipsim.PaceSpec
@@ -423,8 +439,9 @@ func c04Selection(c *core.Ctx) {
 		if !c.Thorough() && mask%3 != 0 {
 			continue
 		}
-		// shuffle the order of entries in EF.CardAccess: supported ones first or last
-		p, err := perso.New(perso.Options{Seed: int64(mask), BAC: true, Pace: sup, ExtraPaceInfos: extra, IssuerTrusted: true, Transport: chipsim.Transport{ExtendedLength: true}, CAN: "123456"})
+		// EF.CardAccess is a SET: supported entries first (0), unsupported ones first (1), shuffled (seed)
+		for _, order := range []int64{0, 1, int64(1000 + mask)} {
+		p, err := perso.New(perso.Options{Seed: int64(mask), BAC: true, Pace: sup, ExtraPaceInfos: extra, PaceInfoOrder: order, IssuerTrusted: true, Transport: chipsim.Transport{ExtendedLength: true}, CAN: "123456"})
 		if err != nil {
 			core.Infra("perso: %v", err)
 		}
@@ -435,16 +452,17 @@ func c04Selection(c *core.Ctx) {
 		if err != nil {
 			core.Infra("C04: EF.CardAccess: %v", err)
 		}
-		key := "select/" + strings.Join(names, "+")
+		key := fmt.Sprintf("select/%s/order%d", strings.Join(names, "+"), order)
 		c.Case(key, len(names) > 1)
-		rp := map[string]any{"advertised": names}
+		rp := map[string]any{"advertised": names, "order": order}
 		if doc.Mf.CardAccess, err = document.NewCardAccess(ca); err != nil {
 			c.Violation("C04:cardaccess-with-unsupported-entries-rejected", fmt.Sprintf("EF.CardAccess advertising %v is not parsed: %v", names, err), rp)
 			continue
 		}
 		res, _, err := pace.NewPace(s.Nfc, doc, password.NewPasswordCan("123456")).DoPACE()
 		if err != nil || res == nil || !res.Success || !chip.Truth().PaceCompleted {
-			c.Violation("C04:selection-fails-although-supported-entry-advertised", fmt.Sprintf("PACE failed with advertised infos %v: %v", names, err), rp)
+			c.Violation("C04:selection-fails-although-supported-entry-advertised", fmt.Sprintf("PACE failed with advertised infos %v (order %d): %v", names, order, err), rp)
+		}
 		}
 	}
 }
